@@ -12,6 +12,26 @@ CHECKS = {
         note="Trusted: z3; symx interpreter and its models of int/bytes/str builtins, re (sre-parser based matcher) and random "
         "(nondeterministic), each validated against CPython on every run; BeaconConfig.from_bytes replaced by a call recorder.",
         ref="§4 C20"),
+    "C05": dict(
+        text="For every plaintext length 0..33/64 with symbolic plaintext, AES key, HMAC key and IV: padding law, ciphertext == "
+        "AES-CBC(key, iv, padded), signature == HMAC[:16] over the ciphertext, decrypt(encrypt(x)) == x+padding; a symbolic non-zero "
+        "difference over the ciphertext, the signature or the HMAC key, truncations, and a missing HMAC key are rejected with "
+        "ValueError before any AES decryption is attempted; client/server framing of <=3/4 packets splits back exactly. AES and HMAC "
+        "are uninterpreted functions, so nothing is claimed about their strength.",
+        note="Trusted: z3; symx; AES-CBC / HMAC-SHA256 as uninterpreted functions with their length/permutation contracts (checked "
+        "against pycryptodome/hmac each run); assumption A-HMAC (distinct (key,msg) => tags differ) only in the ciphertext/key/"
+        "truncation fault instances.",
+        ref="§4 C05"),
+    "C04": dict(
+        text="For every client program of <=2/3 encoder steps x 4 terminations (plus selected multi-block programs with static "
+        "decorations and initial requests) and every server-output program of <=2/3 steps, with symbolic payload (<=5/7 bytes), "
+        "symbolic prepend/append arguments and a fresh symbolic mask per mask step: the library message equals the reference "
+        "Malleable-C2 encoding (placement and bytes) and recover(transform(x)) == x. Known finding D8 (uri-append onto a non-empty "
+        "URI) is excluded by its region and re-confirmed each run.",
+        note="Trusted: z3; symx; bit-level base64 model (validated against CPython each run); random.getrandbits nondeterministic; "
+        "the reference encoder written in the harness from the Malleable C2 definition. Library==reference plus library round trip "
+        "gives both cross directions (reference-encoded messages decode with the library and vice versa).",
+        ref="§4 C04"),
     "C15": dict(
         text="iter_find_needle: for every haystack (<=8/12 fully symbolic bytes), needle (1..3 / 1..4,7 symbolic bytes), read-buffer size "
         "1..5,8 / 1..9, start position and search limit, the reported offsets are proved to be exactly the true occurrences (ascending, "
